@@ -68,6 +68,21 @@ CLAIMED = {
    note="Trusted: Coq kernel, extraction, harness; the visit sequence below a root is C02's; -files0-from - (stdin) not exercised.",
    technique="Coq proof + differential correspondence",
    design="5 C18"),
+ "C06": dict(
+   text="Coq theorem relative to a kernel model (Linux bprm_stack_limits/copy_strings: every string <= 128 KiB, strings + 8 bytes per argv/envp pointer within max(min(stack/4, 6 MiB), 128 KiB)): every batch the xargs limiter chain admits is a command line that model accepts, for every argument count and size, environment and stack limit; an oversize argument is never admitted and ends the run with status 1; the pinned limiter (no pointer accounting) is refuted by 400 000 one-byte arguments. The kernel model is validated on every run by real execve probes; the real xargs runs up to 600 000 arguments under several stack limits with every argument delivered and the model's batch sizes.",
+   note="Partial by construction: the kernel rule is a validated model, not verified. Trusted: Coq kernel, harness, getconf ARG_MAX = sysconf in the child's setting.",
+   technique="Coq proof relative to a probe-validated kernel model + real execve boundary probes + large end-to-end runs",
+   design="5 C06"),
+ "C08": dict(
+   text="Coq theorem about a transcription of MultiExecMatcher with argmax's accounting and process_dir's current_dir bookkeeping: for every entry sequence (each path fitting alone) nothing is pending at the end (also after -quit), the appended arguments concatenated are exactly the reached entries in visit order, every invocation is within argmax's budget (hence accepted by the kernel model), every -execdir invocation holds entries of one directory and runs there, and the exit status is non-zero iff an invocation failed. Tied to /repo by the real binary with a recorder child on trees of thousands of long paths under reduced stack limits (several batches), tests before the action, -quit, failing invocations.",
+   note="Trusted: Coq kernel, extraction, harness; argmax modelled from its source; kernel rule as C06.",
+   technique="Coq proof (loop invariant over the entry sequence) + end-to-end correspondence with a recorder child",
+   design="5 C08"),
+ "C10": dict(
+   text="Coq theorem: folding DeleteMatcher (remove_file for non-directories and links, rmdir succeeding iff every listed child was removed) over the -depth visit sequence removes exactly the reference set - the matched entries, a directory only once everything below it is gone - in depth-first order, and nothing unmatched, for every tree and predicate. Tied to /repo by in-process runs on throw-away trees with links inside and outside, full before/after snapshots of the sandbox and of a decoy directory, exit status, and the printed sequence against -depth EXPR -print on a twin tree.",
+   note="Trusted: Coq kernel, extraction, harness; unlink/rmdir semantics; -P only for the decoy check.",
+   technique="Coq proof (nested induction with a freshness invariant) + snapshot-based correspondence",
+   design="5 C10"),
 }
 ALL = ["C%02d" % i for i in range(1, 21)]
 def main():
